@@ -347,6 +347,75 @@ _base_check = check
 def check(ctx):            # noqa: F811
     _base_check(ctx)
     paging(ctx, ctx.prog, Evaluator(ctx.prog))
+    page_fits(ctx, ctx.prog, Evaluator(ctx.prog))
+    public_address(ctx, ctx.prog)
+    # "whatever subset of contacted nodes … answers with garbage": the reader that takes those answers apart terminates and refuses — C17's rule instances
+    R.share(ctx, "C17", {"C17-D1": "C12-D7"})
+
+
+def public_address(ctx, prog):
+    """value lookups yield 'well-formed public peer addresses': the predicate every KademliaPeer is validated with refuses each non-public class"""
+    f = ctx.fa("lbry.utils.is_valid_public_ipv4")
+    ad = f.fi.params()[0]
+    anys = [c for c in f.calls(name="any") if c.args and isinstance(c.args[0], (ast.Tuple, ast.List))]
+    refuse = [c for c in anys if (lambda st: isinstance(st, ast.If) and any(x is c for x in ast.walk(st.test)))(R.stmt_of(c))]
+    ctx.floor("C12-D8/PUBLIC", "the refusal test of is_valid_public_ipv4", len(refuse), 1, site=f.site(), func=f.fi.qualname)
+    want = {"parsed_ip.version != 4", "parsed_ip.is_unspecified", "parsed_ip.is_link_local", "parsed_ip.is_loopback", "parsed_ip.is_multicast", "parsed_ip.is_reserved", "parsed_ip.is_private"}
+    for c in refuse:
+        got = {terms._txt(e) if hasattr(terms, "_txt") else unparse(e) for e in c.args[0].elts}
+        got = {g.replace("4 != parsed_ip.version", "parsed_ip.version != 4") for g in got}
+        st = R.stmt_of(c)
+        ok = want <= got and all(isinstance(x, ast.Return) and is_const(x.value, False) for x in st.body)
+        ctx.ob("C12-D8/PUBLIC", ok, f.site(c), "refused: not IPv4, unspecified, link-local, loopback, multicast, reserved, private — each class is tested by name "
+               "(`is_global` is no substitute: Python reports 224.0.0.0/4 as global)", detail="" if ok else f"missing: {sorted(want - got)}", func=f.fi.qualname, key="C12-D8/PUBLIC|classes")
+    ps = [s for s in f.stmts(ast.Assign) if len(s.targets) == 1 and dotted(s.targets[0]) == "parsed_ip"]
+    ok = len(ps) == 1 and unparse(ps[0].value) == f"ipaddress.ip_address({ad})"
+    ctx.ob("C12-D8/PUBLIC", ok, f.site(), "the classes are those of ipaddress.ip_address(<the address>)", func=f.fi.qualname, key="C12-D8/PUBLIC|parsed")
+    nets = {"CARRIER_GRADE_NAT_SUBNET": "100.64.0.0/10", "IPV4_TO_6_RELAY_SUBNET": "192.88.99.0/24"}
+    for nm, net in nets.items():
+        v = f.fi.module.assigns.get(nm)
+        ok = v is not None and unparse(v) == f"ipaddress.ip_network('{net}')"
+        used = any(isinstance(n, ast.Name) and n.id == nm for n in ast.walk(f.fi.node))
+        ctx.ob("C12-D8/PUBLIC", ok and used, f.site(), f"{net} (not flagged by the ipaddress module) is refused as well", func=f.fi.qualname, key=f"C12-D8/PUBLIC|{nm}")
+    # handlers: an unparsable address is refused, never raised
+    hs = [h for t in f.stmts(ast.Try) for h in t.handlers]
+    ok = bool(hs) and all(all(isinstance(x, ast.Return) and is_const(x.value, False) for x in h.body) for h in hs) and \
+        any("ValueError" in unparse(h.type) for h in hs if h.type is not None)
+    ctx.ob("C12-D8/PUBLIC", ok, f.site(), "an address that does not parse is refused (ValueError handled → False)", func=f.fi.qualname, key="C12-D8/PUBLIC|unparsable")
+    w = ctx.fa("lbry.dht.peer.is_valid_public_ipv4")
+    rets = w.stmts(ast.Return)
+    tgt = prog.resolve_name(w.fi.module, "_is_valid_public_ipv4")
+    ok = bool(rets) and all(isinstance(r.value, ast.Call) and dotted(r.value.func) == "_is_valid_public_ipv4" and r.value.args and dotted(r.value.args[0]) == w.fi.params()[0]
+                            and not any(k.arg == "allow_lan" for k in r.value.keywords) and len(r.value.args) <= 2 for r in rets) and getattr(tgt, "qualname", None) == "lbry.utils.is_valid_public_ipv4"
+    ctx.ob("C12-D8/PUBLIC", ok, w.site(), "the DHT's validator is that predicate applied to the peer's address (LAN addresses never allowed)", func=w.fi.qualname, key="C12-D8/PUBLIC|wrapper")
+
+
+def page_fits(ctx, prog, ev):
+    """a full findValue page must be sendable: _send refuses datagrams above MSG_SIZE_LIMIT, and the storing node then answers the request with an error
+    — announcers get no store token, announcements reach too few nodes.  Worst case of one reply, from the constants (bencode: a string of n bytes
+    costs len(str(n)) + 1 + n; integers as i…e): header d i0e i1e i1e <rpc id> i2e <node id> i3e … e; result {token, protocolVersion, contacts: K triples
+    (node id, dotted quad ≤ 15 chars, port ≤ 65535), <blob hash>: K compact addresses (4 + 2 + id length), p: page count}."""
+    cm = prog.module("lbry.dht.constants")
+    try:
+        K, H, RL, LIM = (ev.name(cm, n) for n in ("K", "HASH_LENGTH", "RPC_ID_LENGTH", "MSG_SIZE_LIMIT"))
+        ok = all(isinstance(x, int) for x in (K, H, RL, LIM))
+    except Unknown:
+        ok = False
+    if not ok:
+        ctx.ob("C12-D6/FITS", False, "lbry/dht/constants.py:1", "K, HASH_LENGTH, RPC_ID_LENGTH and MSG_SIZE_LIMIT fold to integers", key="C12-D6/FITS|consts")
+        return
+
+    def enc(n):
+        return len(str(n)) + 1 + n
+    header = 1 + (3 + 3) + (3 + enc(RL)) + (3 + enc(H)) + 3 + 1
+    result = 2 + (7 + enc(H)) + (18 + 3) + (10 + 2 + K * (2 + enc(H) + enc(15) + 7)) + (enc(H) + 2 + K * enc(6 + H)) + (3 + 5)
+    need = header + result
+    ctx.ob("C12-D6/FITS", LIM >= need, "lbry/dht/constants.py:1", f"MSG_SIZE_LIMIT admits a full findValue reply (token, K contacts, a page of K peers): {need} bytes in the worst case",
+           detail=f"MSG_SIZE_LIMIT = {LIM}, K = {K}, id length = {H}, rpc id length = {RL}", key="C12-D6/FITS|page")
+    sd = ctx.fa("lbry.dht.protocol.protocol.KademliaProtocol._send")
+    cmp_ = [n for n in sd.local_nodes(ast.Compare) if "MSG_SIZE_LIMIT" in unparse(n)]
+    ok = len(cmp_) == 1 and R.same_test(cmp_[0], "len(data) > constants.MSG_SIZE_LIMIT")
+    ctx.ob("C12-D6/FITS", ok, sd.site(), "_send refuses exactly the datagrams longer than MSG_SIZE_LIMIT", func=sd.fi.qualname, key="C12-D6/FITS|send-test")
 
 
 def paging(ctx, prog, ev):
